@@ -141,7 +141,9 @@ class SymNumpy:
                 bool if isinstance(fill_value, bool) else _np.int64)
         kind = sort_of_dtype(dtype) if not isinstance(fill_value, SElem) else "elem"
         if fill_value is None:
-            raise TypeError("int() argument must be a string, a bytes-like object or a real number, not 'NoneType'")
+            # numpy builds an object array of None; modelled as an abstract element constant
+            t = ELEM_CONST(None)
+            return SymArr.fresh(shp, lambda *i: t, "elem", object)
         t = scalar_term(fill_value, kind)
         return SymArr.fresh(shp, lambda *i: t, kind, dtype)
 
